@@ -48,3 +48,23 @@ def replace_arguments(spelling, valkind):
         print('REPLAY: VIOLATION-CONFIRMED announced arguments depend on the spelling of the replacement')
     else:
         print('REPLAY: not reproduced')
+
+
+def monomial_derivative():
+    """derivative of a factored polynomial in an argument of rank 3 against the derivative of the unfactored one"""
+    from nutils import evaluable as ev
+    rng = numpy.random.RandomState(2)
+    for shape in [(2, 3, 4), (3, 2), (4,)]:
+        u = ev.Argument('u', tuple(ev.constant(s) for s in shape), float)
+        A = ev.constant(rng.rand(*shape))
+        f = ev.Sum(ev._flat(A * u * u + A * u)) if hasattr(ev, '_flat') else None
+        g = ev.factor(f)
+        d1 = ev.derivative(f, u)
+        d2 = ev.derivative(g, u)
+        val = rng.rand(*shape)
+        a, b = (numpy.asarray(ev.eval_once(d, arguments={'u': val})) for d in (d1, d2))
+        if a.shape != b.shape or not numpy.allclose(a, b):
+            print('argument of shape %s: derivative(factor(f), u) deviates from derivative(f, u) by %.3g' % (shape, abs(a - b).max()))
+            print('REPLAY: VIOLATION-CONFIRMED the derivative of a factored polynomial is wrong')
+            return
+    print('REPLAY: not reproduced')
